@@ -274,10 +274,18 @@ func getSignatureAlgorithmByHash(hash Hash, oid asn1.ObjectIdentifier) Signature
 		case oid.Equal(oidSM3withSM2):
 			return SM2WithSM3
 		}
+	case SHA1:
+		// what AddSigner produces: SHA-1 digest, RSA PKCS#1 v1.5 signature
+		switch {
+		case oid.Equal(oidSignatureSHA1WithRSA), oid.Equal(oidEncryptionAlgorithmRSA):
+			return SHA1WithRSA
+		}
 	case SHA256:
 		switch {
 		case oid.Equal(oidDSASM2):
 			return SM2WithSHA256
+		case oid.Equal(oidSignatureSHA256WithRSA), oid.Equal(oidEncryptionAlgorithmRSA):
+			return SHA256WithRSA
 		}
 	}
 	return UnknownSignatureAlgorithm
